@@ -4,7 +4,7 @@ func init() {
 	register(&PropDef{
 		ID:          "C03",
 		Level:       "other",
-		Explanation: "Liveness itself is not decidable by this family; decided are its structural necessary conditions: (1) RETRIGGER — every event that frees a slot or changes the head (job completes, popped job fails to start, head's delay expires, waiting job is canceled) is followed on every CFG path to the return by a call of the dequeue function; (2) TRANSIENT HEAD BLOCK — the dequeue loop stops only on empty list, decision ≠ Start, or head timer pending; every armed timer's callback clears the timer and re-runs the dequeue for a listed job, and every path that makes a waiting job terminal removes it from the wait list (so a job that will never clear its timer cannot sit at the head); (3) the dequeue decision composed with the admission table gives Start ⇔ running < concurrency for a head whose timer is not pending, for every value of the CURRENT definition's delay/limit/strategy (a reload cannot strand queued jobs); (4) no lost update on the wait list; (5) NO GHOST SLOT — every job restored at start-up leaves the load loop completed or canceled on all 8 rows of (started, completed, canceled), so a job of an earlier run never counts as running.",
+		Explanation: "Liveness itself is not decidable by this family; decided are its structural necessary conditions: (1) RETRIGGER — every event that frees a slot or changes the head (job completes, popped job fails to start, head's delay expires, waiting job is canceled) is followed on every CFG path to the return by a call of the dequeue function; (2) TRANSIENT HEAD BLOCK — the dequeue loop stops only on empty list, decision ≠ Start, or head timer pending; every armed timer's callback clears the timer and re-runs the dequeue for a listed job, and every path that makes a waiting job terminal removes it from the wait list (so a job that will never clear its timer cannot sit at the head); (3) the dequeue decision composed with the admission table gives Start ⇔ running < concurrency for a head whose timer is not pending, for every value of the CURRENT definition's delay/limit/strategy (a reload cannot strand queued jobs); (4) no lost update on the wait list; (5) NO GHOST SLOT — every job restored at start-up leaves the load loop completed or canceled on all 8 rows of (started, completed, canceled), so a job of an earlier run never counts as running. COUNT SHAPE — the admission count ranges over the pipeline's list with the running predicate (a counter that can stay up strands every later job).",
 		Trusted:     []string{"C13 (operations are atomic under the runner mutex)", "time.AfterFunc eventually fires", "tasks terminate (premise of the property)"},
 		NotDecided:  []string{"eventual start and the time bound (liveness)", "fairness of the Go scheduler"},
 		Check: func(w *World, r *Report) {
